@@ -107,6 +107,20 @@ def floordiv2(a, b):
     return a // 0.5 + b
 
 
+def mod_half(a, b):
+    # Python's %: the result has the sign of the divisor; power-of-two divisor keeps every step exact
+    return b * (a % 0.5)
+
+
+def half_sum(a, b, k):
+    # a numeric factor, a symbol and a sum in one product
+    return 0.5 * k * (a + b)
+
+
+def twice_diff(a, b, k):
+    return 2 * k * (a - b)
+
+
 def circle(a):
     return math.pi * a
 
@@ -172,6 +186,9 @@ ARITY = {
     "one": 0,
     "half_of": 1,
     "floordiv2": 2,
+    "mod_half": 2,
+    "half_sum": 3,
+    "twice_diff": 3,
     "circle": 1,
     "root": 1,
     "euler": 1,
